@@ -331,6 +331,9 @@ class Matcher:
                         raise Mismatch(f"the reader rejects what the writer produced: condition {term_str(c, 4)} holds on a reader error path", dec[0][2])
                     continue
                 rest = evs if ex == "return" else evs + dec[1:]
+                if ex == "return" and getattr(self, "return_sink", False):
+                    # the value of an early `return` is the reader's result on this path
+                    rest = rest + [("sink", "__return__", exval, dec[0][2])]
                 try:
                     r = self._m(enc, rest, subst, sinks, conds + [("R", c)])
                     ok.append((truth, r))
